@@ -85,6 +85,15 @@ pub fn c08_specs(quick: bool) -> Vec<EwSpec> {
         env.fates = DF_BASIC; env.deltas = &[100, 2000]; env.fair_delta = 500; env.late_events = true;
         scs.push(sc("C08.events-read-one-step-late", &cfg, script, env, 2, EO_C08 | EO_ECHO | EO_C07));
     }
+    // a server application that keeps the handle Server::client() gave it for every connection (a session table), to the end of the run
+    for (sname, tail) in [("server-disconnects-now", vec![after_s(0, 3, Act::SDisconnectNow(0))]), ("server-disconnects", vec![after_s(0, 3, Act::SDisconnect(0))]), ("client-disconnects", vec![after_c(0, 4, Act::CDisconnect(0))]), ("client-vanishes", vec![after_c(0, 4, Act::Forget(0))]),
+                          ("server-disconnects-now-then-reconnect", vec![after_s(0, 3, Act::SDisconnectNow(0)), at(20, Act::Forget(0)), at(22, Act::Connect(0)), at(30, Act::CSend(0, 0, SendMode::Reliable, 33))])] {
+        let cfg = EwCfg::new(1);
+        let mut script = echo_script(0); script.extend(tail);
+        let mut env = EwEnv::basic(6, 140);
+        env.dev_start = 3; env.fates = DF_BASIC; env.deltas = &[100, 2000]; env.fair_delta = 500; env.keep_handles = true; env.stop_when_done = false;
+        scs.push(sc(&format!("C08.handles-kept.{}", sname), &cfg, script, env, 2, EO_C08));
+    }
     // two concurrent clients: application choices on client 0, the second one connects, echoes and disconnects meanwhile
     {
         let mut cfg = EwCfg::new(2);
@@ -578,6 +587,22 @@ pub fn c17_parts(quick: bool) -> (Vec<EwSpec>, Vec<Scenario>) {
             scs.push(sc(&format!("C17.crossing-disconnects-then-newcomers.{}", cname), &cfg, script, env, if quick { 1 } else { 2 }, EO_C17 | EO_C08));
         }
     }
+    // the server application stalls (no step() for longer than the active time-out) while an established client keeps sending and a
+    // newcomer's request arrives: when it steps again it finds the newcomer's SYN and the established client's datagrams in one batch,
+    // in either order; the established connection is alive, so the newcomer does not fit
+    for (ma, mt) in [(1usize, 1usize), (1, 2), (2, 2)] {
+        for first in [12usize, 10] {
+            let mut cfg = EwCfg::new(3); cfg.max_active = ma; cfg.max_total = mt;
+            for c in cfg.clients.iter_mut() { c.active_timeout_ms = 3000; } cfg.server.active_timeout_ms = 3000;
+            let mut script = vec![at(0, Act::Connect(0))];
+            if ma == 2 { script.push(at(0, Act::Connect(2))); for r in (5..70).step_by(4) { script.push(at(r, Act::CSend(2, 1, SendMode::Unreliable, 21))); } }
+            for r in (4..70).step_by(4) { script.push(at(r, Act::CSend(0, 0, SendMode::Unreliable, 20))); }
+            script.push(at(first, Act::Connect(1)));
+            let mut env = EwEnv::basic(6, 90);
+            env.dev_start = 7; env.fates = DF_NONE; env.deltas = &[100]; env.fair_delta = 100; env.stop_when_done = false; env.stalls = &[(1, 35), (1, 31), (1, 60)];
+            scs.push(sc(&format!("C17.server-stalls-past-the-timeout.newcomer-at-{}", first), &cfg, script, env, 1, EO_C17 | EO_C08));
+        }
+    }
     // the server disconnects a client, the client acknowledges, and the same address connects again 5 / 15 / 23 s later (the disconnect
     // retry budget of the old connection would have run for 22 s); a newcomer 3.5 s after that must find the slot taken
     for (ma, mt) in [(1usize, 1usize), (1, 2)] {
@@ -854,6 +879,8 @@ pub fn c10_parts(quick: bool) -> (Vec<EwSpec>, Vec<Scenario>) {
                     env.deltas = leak_deltas(cad, &[]); env.fair_delta = cad; env.fates = DF_NONE; env.stop_when_done = false;
                     if cad >= 7 {
                         scs.push(sc("C10.keepalive-idle", &cfg, vec![at(0, Act::Connect(0))], env.clone(), 0, EO_C10 | EO_KEEPALIVE));
+                        // ... while a stranger sends ten unparsable datagrams to the server in every round
+                        if cad == 100 { let mut ej = env.clone(); ej.junk_per_round = 10; scs.push(sc("C10.keepalive-idle.junk-from-a-stranger", &cfg, vec![at(0, Act::Connect(0))], ej, 0, EO_C10 | EO_KEEPALIVE)); }
                         // keep-alive enabled on one endpoint only: its frames (and the peer's replies to them) keep both ends alive
                         let mut c1 = cfg.clone(); c1.server.keepalive = false;
                         scs.push(sc("C10.keepalive-idle.client-only", &c1, vec![at(0, Act::Connect(0))], env.clone(), 0, EO_C10 | EO_KEEPALIVE));
